@@ -67,7 +67,7 @@ def supports_shots_none(subject):
 
 def gen_family(seed, idx):
     rng = Rng(seed, "c12", idx)
-    sim = rng.weighted([("PureFockSimulator", 5), ("PassiveSimulator", 4), ("GaussianSimulator", 4), ("FermionicPureFockSimulator", 3), ("FockSimulator", 1), ("FermionicGaussianSimulator", 1)])
+    sim = rng.weighted([("PureFockSimulator", 5), ("PassiveSimulator", 4), ("GaussianSimulator", 4), ("FermionicPureFockSimulator", 3), ("FockSimulator", 2), ("FermionicGaussianSimulator", 2)])
     subject = gen.gen_subject(rng.randrange(2**62), sim, shots=rng.randrange(1, 9))
     if sim == "PureFockSimulator" and subject["config"]["cutoff"] < 3:
         subject["config"]["cutoff"] = 3
